@@ -713,7 +713,7 @@ func (s *scanner) stateMultiLineAnnotation(c byte) (state, error) {
 }
 
 func (s *scanner) stateMultiLineAnnotationText(c byte) (state, error) {
-	if c == '*' && s.data[s.index] == '/' {
+	if c == '*' && s.index < s.dataSize && s.data[s.index] == '/' {
 		s.found(lexeme.MultiLineAnnotationTextEnd)
 		s.step = s.stateMultiLineAnnotationEnd
 	}
